@@ -3,8 +3,10 @@
    Encoding", "Instruction Details", "Privileged ISA"), NOT from ProcFL.py / ProcCL.py / ProcRTL.py.
    Definitions only (computable; evaluated with vm_compute by harness/c20.py); proofs are in TinyRV0Proofs.v.
 
+   Accelerator registers (xcelregXX): the document makes them transactions with "an accelerator" whose semantics it
+   does not fix; the model is instantiated with the NullXcel the ex03 harness attaches (see `xcel_read/xcel_write`).
    Where the document says "undefined" (unaligned lw/sw, addresses above 0x000fffff, writing mngr2proc,
-   reading proc2mngr), where it defers to an accelerator (xcelregXX) and where it says "stall"
+   reading proc2mngr), for CSR numbers it does not list, and where it says "stall"
    (csrr mngr2proc on an empty FIFO), `step` returns None: the model does not choose a behaviour.
    A word that is not one of the ten instructions (e.g. the all-zero word after the program) also gives None;
    `run` stops there, which is how the differential harness detects the end of a program. *)
@@ -168,12 +170,28 @@ Fixpoint upd (n : nat) (v : Z) (l : list Z) : list Z :=
 Definition rset (rf : regfile) (i v : Z) : regfile :=
   if i <=? 0 then rf else upd (Z.to_nat i) (wrap32 v) rf.
 
+(* ---- the accelerator.  The document: "xcelregXX (0x7e0-0x7ff): Used to communicate data to/from the processor
+   and an accelerator.  The exact semantics of each register is specific to each accelerator."  So csrw/csrr on
+   these numbers are a write/read transaction with the accelerator, in program order, and what a read returns is
+   the accelerator's business.  The ex03 test harness composes every processor with NullXcelRTL
+   (examples/ex03_proc/NullXcel.py); THIS PART is modelled from that component, not from the ISA document:
+   one 32-bit register xr0 (0 before the first write); a write to ANY xcelreg stores the data into xr0,
+   a read of ANY xcelreg returns xr0 and changes nothing. *)
+Definition XCEL_LO : Z := 2016.   (* 0x7E0 *)
+Definition XCEL_HI : Z := 2047.   (* 0x7FF *)
+Definition is_xcelreg (csr : Z) : bool := (XCEL_LO <=? csr) && (csr <=? XCEL_HI).
+Definition xcel_state := Z.
+Definition xcel_reset : xcel_state := 0.
+Definition xcel_write (x : xcel_state) (addr v : Z) : xcel_state := wrap32 v.
+Definition xcel_read (x : xcel_state) (addr : Z) : Z * xcel_state := (x, x).
+
 Record state : Type := mkState {
   pc : Z;
   regs : regfile;
   mem : memory;
   mngr2proc : list Z;        (* FIFO from the manager, head first *)
-  proc2mngr_rev : list Z     (* values enqueued for the manager, newest first *)
+  proc2mngr_rev : list Z;    (* values enqueued for the manager, newest first *)
+  xcel : xcel_state          (* state of the accelerator the processor is composed with *)
 }.
 
 Definition outputs (s : state) : list Z := rev (proc2mngr_rev s).
@@ -190,36 +208,41 @@ Definition exec (i : instr) (s : state) : option state :=
       if csr =? CSR_MNGR2PROC then
         match mngr2proc s with
         | [] => None                                              (* "will stall if the FIFO has no valid data" *)
-        | v :: q => Some (mkState (next_pc s) (rset (regs s) rd v) (mem s) q (proc2mngr_rev s))
+        | v :: q => Some (mkState (next_pc s) (rset (regs s) rd v) (mem s) q (proc2mngr_rev s) (xcel s))
         end
-      else None                                                   (* proc2mngr: undefined; xcelregXX: accelerator specific *)
+      else if is_xcelreg csr then                                 (* read transaction with the accelerator, register csr[4:0] *)
+        let '(v, x') := xcel_read (xcel s) (csr mod 32) in
+        Some (mkState (next_pc s) (rset (regs s) rd v) (mem s) (mngr2proc s) (proc2mngr_rev s) x')
+      else None                                                   (* proc2mngr: "reading the register is undefined"; others: not in the ISA *)
   | CSRW csr rs1 =>
       if csr =? CSR_PROC2MNGR then
-        Some (mkState (next_pc s) (regs s) (mem s) (mngr2proc s) (R rs1 :: proc2mngr_rev s))
-      else None                                                   (* mngr2proc: undefined; xcelregXX: accelerator specific *)
+        Some (mkState (next_pc s) (regs s) (mem s) (mngr2proc s) (R rs1 :: proc2mngr_rev s) (xcel s))
+      else if is_xcelreg csr then                                 (* write transaction with the accelerator *)
+        Some (mkState (next_pc s) (regs s) (mem s) (mngr2proc s) (proc2mngr_rev s) (xcel_write (xcel s) (csr mod 32) (R rs1)))
+      else None                                                   (* mngr2proc: "writing the register is undefined"; others: not in the ISA *)
   | ADD rd rs1 rs2 =>
-      Some (mkState (next_pc s) (rset (regs s) rd (R rs1 + R rs2)) (mem s) (mngr2proc s) (proc2mngr_rev s))
+      Some (mkState (next_pc s) (rset (regs s) rd (R rs1 + R rs2)) (mem s) (mngr2proc s) (proc2mngr_rev s) (xcel s))
   | AND rd rs1 rs2 =>
-      Some (mkState (next_pc s) (rset (regs s) rd (Z.land (R rs1) (R rs2))) (mem s) (mngr2proc s) (proc2mngr_rev s))
+      Some (mkState (next_pc s) (rset (regs s) rd (Z.land (R rs1) (R rs2))) (mem s) (mngr2proc s) (proc2mngr_rev s) (xcel s))
   | SLL rd rs1 rs2 =>
-      Some (mkState (next_pc s) (rset (regs s) rd (R rs1 * 2 ^ (R rs2 mod 32))) (mem s) (mngr2proc s) (proc2mngr_rev s))
+      Some (mkState (next_pc s) (rset (regs s) rd (R rs1 * 2 ^ (R rs2 mod 32))) (mem s) (mngr2proc s) (proc2mngr_rev s) (xcel s))
   | SRL rd rs1 rs2 =>
-      Some (mkState (next_pc s) (rset (regs s) rd (R rs1 / 2 ^ (R rs2 mod 32))) (mem s) (mngr2proc s) (proc2mngr_rev s))
+      Some (mkState (next_pc s) (rset (regs s) rd (R rs1 / 2 ^ (R rs2 mod 32))) (mem s) (mngr2proc s) (proc2mngr_rev s) (xcel s))
   | ADDI rd rs1 imm =>
-      Some (mkState (next_pc s) (rset (regs s) rd (R rs1 + imm)) (mem s) (mngr2proc s) (proc2mngr_rev s))
+      Some (mkState (next_pc s) (rset (regs s) rd (R rs1 + imm)) (mem s) (mngr2proc s) (proc2mngr_rev s) (xcel s))
   | LW rd rs1 imm =>
       let a := wrap32 (R rs1 + imm) in
       if valid_word_addr a then
-        Some (mkState (next_pc s) (rset (regs s) rd (load4 (mem s) a)) (mem s) (mngr2proc s) (proc2mngr_rev s))
+        Some (mkState (next_pc s) (rset (regs s) rd (load4 (mem s) a)) (mem s) (mngr2proc s) (proc2mngr_rev s) (xcel s))
       else None
   | SW rs2 rs1 imm =>
       let a := wrap32 (R rs1 + imm) in
       if valid_word_addr a then
-        Some (mkState (next_pc s) (regs s) (store4 (mem s) a (R rs2)) (mngr2proc s) (proc2mngr_rev s))
+        Some (mkState (next_pc s) (regs s) (store4 (mem s) a (R rs2)) (mngr2proc s) (proc2mngr_rev s) (xcel s))
       else None
   | BNE rs1 rs2 imm =>
       Some (mkState (if R rs1 =? R rs2 then next_pc s else wrap32 (pc s + imm))
-                    (regs s) (mem s) (mngr2proc s) (proc2mngr_rev s))
+                    (regs s) (mem s) (mngr2proc s) (proc2mngr_rev s) (xcel s))
   end.
 
 Definition fetch (s : state) : option instr :=
@@ -252,7 +275,7 @@ Definition zero_regs : regfile := repeat 0 32.
 Definition init_state (sections : list (Z * list Z)) (inputs : list Z) : state :=
   mkState RESET_VECTOR zero_regs
           (fold_left (fun m sec => store_words m (fst sec) (snd sec)) sections (PositiveMap.empty Z))
-          inputs [].
+          inputs [] xcel_reset.
 
 Fixpoint load_words (m : memory) (a : Z) (n : nat) : list Z :=
   match n with O => [] | S k => load4 m a :: load_words m (a + 4) k end.
